@@ -8,3 +8,4 @@ open SSVerif.Lattice
 #print axioms C12_int_bestpath_posterior_le_one
 #print axioms C12_int_bestpath_posterior_dec
 #print axioms C12_int_tables_eq
+#print axioms C12_astar_first_is_max
